@@ -20,6 +20,18 @@ at quiescence, `sent == queue_full_truncated x capacity + queue_length` through 
 `metric_source()`, then the queue is drained and its own account of the `clear()` calls compared;
 (b) a slow receiver thread runs next to the senders and, with ids, `sent == delivered +
 queue_full_truncated x capacity`, lost == exactly what the truncations removed, each a whole-queue run.
+
+How the remainder is EXPRESSED: in two thirds of the failing `on_batch` calls of every history the scripted
+processor does not build its `Err` with `BatchError::retry` / `no_retry` directly but derives it, like a
+layered processor, from an inner "transport" error through the rest of the public `BatchError` API
+(`map_retryable` in all four directions, two maps in a row, `try_into_retryable`, `into_retryable`,
+`BatchError<()>` / `BatchError<Vec<_>>` inner errors; table `VIA_RETRY` / `VIA_NO_RETRY` in `shared/chan.rs`,
+own seeded stream, the plans are unchanged). The offline checker is the same: the next call is exactly the
+remainder the processor ended up expressing (signature suffix `:expressed-through=..:from=..`), and a failure
+expressed as non-retryable is never followed by its own items. `combinators` section: the same API judged on
+its own against the model `Option<remainder>`: `e.map_retryable(f)` holds `f(current)`, `f` runs exactly once
+and sees `current`, for current in {None, Some(x)} and every kind of `f`, also twice in a row and across
+element types; `try_into_retryable` / `into_retryable` give back exactly `current`.
 */
 
 #[path = "../shared/chan.rs"]
@@ -34,6 +46,122 @@ mod chan_sampler;
 
 use chan::*;
 use vcommon::*;
+
+type Rm = Option<Vec<u32>>;
+
+fn rm_name(c: &Rm) -> &'static str {
+    if c.is_some() { "some" } else { "none" }
+}
+
+const F_KINDS: [&str; 6] = ["always-none", "always-some", "identity", "trim-or-none", "upgrade-none-keep-some", "swap"];
+
+/// one closure a layer may pass to `map_retryable`, as a pure function (used by the model and, wrapped, by the real call)
+fn f_apply(kind: usize, y: &[u32], c: Rm) -> Rm {
+    match kind {
+        0 => None,
+        1 => Some(y.to_vec()),
+        2 => c,
+        3 => c.map(|v| v[v.len() / 2..].to_vec()),
+        4 => Some(c.unwrap_or_else(|| y.to_vec())),
+        _ => match c {
+            Some(_) => None,
+            None => Some(y.to_vec()),
+        },
+    }
+}
+
+fn be_build(c: &Rm) -> emit_batcher::BatchError<Vec<u32>> {
+    match c {
+        Some(v) => emit_batcher::BatchError::retry(TransportErr, v.clone()),
+        None => emit_batcher::BatchError::no_retry(TransportErr),
+    }
+}
+
+/// `BatchError` against the model `Option<remainder>`; returns the number of violations it reported
+fn combinator_case(r: &mut Report, seed: u64, i: u64) -> u64 {
+    use std::cell::RefCell;
+    let mut g = Rng::stream(seed, &[6, 40, i]);
+    let gen_v = |g: &mut Rng| -> Vec<u32> { (0..g.range(0, 6)).map(|_| g.below(1000) as u32).collect() };
+    // every (current, f) pair is covered in the first 12 cases; the values are seeded
+    let cur: Rm = if i % 2 == 0 { None } else { Some(gen_v(&mut g)) };
+    let k1 = ((i / 2) % 6) as usize;
+    let k2 = g.usize(6);
+    let (y1, y2) = (gen_v(&mut g), gen_v(&mut g));
+    let before = r.violation_count();
+    let case = |what: &str, got: &Rm, want: &Rm| json!({"section": "combinators", "seed": seed, "case": i, "current": cur, "f": F_KINDS[k1], "f2": F_KINDS[k2], "y": y1, "y2": y2, "step": what, "got": got, "model": want});
+    r.observe("batch-error-combinator-cases", 1);
+
+    // constructors + into_retryable / try_into_retryable
+    let got = be_build(&cur).into_retryable();
+    if got != cur {
+        r.violation(&format!("C06:batch-error:into_retryable:from={}:gives-{}", rm_name(&cur), rm_name(&got)), "into_retryable() does not give back the remainder the error was built with", case("into_retryable", &got, &cur));
+    }
+    let got = match be_build(&cur).try_into_retryable() {
+        Ok(v) => Some(v),
+        Err(e) => {
+            let inner = e.into_retryable();
+            if inner.is_some() {
+                r.violation(&format!("C06:batch-error:try_into_retryable:from={}:err-still-retryable", rm_name(&cur)), "try_into_retryable() returned Err with an error that carries a remainder", case("try_into_retryable", &inner, &None));
+            }
+            None
+        }
+    };
+    if got != cur {
+        r.violation(&format!("C06:batch-error:try_into_retryable:from={}:gives-{}", rm_name(&cur), rm_name(&got)), "try_into_retryable() is not Ok(remainder) exactly when the error carries one", case("try_into_retryable", &got, &cur));
+    }
+
+    // one map, then a second one on its result
+    let mut model = cur.clone();
+    let mut e = be_build(&cur);
+    for (step, (k, y)) in [(k1, &y1), (k2, &y2)].into_iter().enumerate() {
+        let name = if step == 0 { "map_retryable" } else { "map_retryable-twice" };
+        let want = f_apply(k, y, model.clone());
+        let seen: RefCell<Vec<Rm>> = RefCell::new(Vec::new());
+        let mapped = e.map_retryable(|c| {
+            seen.borrow_mut().push(c.clone());
+            f_apply(k, y, c)
+        });
+        let seen = seen.into_inner();
+        if seen.len() != 1 {
+            r.violation(&format!("C06:batch-error:{}:closure-ran-{}-times:from={}", name, seen.len().min(2), rm_name(&model)), "map_retryable must hand the current remainder (or None) to the closure exactly once", case(name, &None, &want));
+        } else if seen[0] != model {
+            r.violation(&format!("C06:batch-error:{}:closure-saw-{}:from={}", name, rm_name(&seen[0]), rm_name(&model)), "the closure given to map_retryable did not see the current remainder", case(name, &seen[0], &model));
+        }
+        // read the result without losing it: rebuild from what it held
+        let got = mapped.into_retryable();
+        if got != want {
+            let how = match (&got, &want) {
+                (None, Some(_)) => "remainder-dropped",
+                (Some(_), None) => "remainder-invented",
+                _ => "other-remainder",
+            };
+            r.violation(
+                &format!("C06:batch-error:{}:{}:from={}:f={}", name, how, rm_name(&model), F_KINDS[k]),
+                &format!("e.map_retryable(f) must hold f(current): current is {}, f(current) is {}, the result holds {}", rm_name(&model), rm_name(&want), rm_name(&got)),
+                case(name, &got, &want),
+            );
+        }
+        model = want;
+        e = be_build(&got);
+    }
+
+    // across element types: T -> () -> T
+    let unit = be_build(&cur).map_retryable(|c| c.map(|_| ()));
+    let want_u = cur.as_ref().map(|_| ());
+    let back = unit.map_retryable(|c| {
+        if c != want_u {
+            None
+        } else {
+            f_apply(k1, &y1, c.map(|()| y2.clone()))
+        }
+    });
+    let want = f_apply(k1, &y1, cur.as_ref().map(|_| y2.clone()));
+    let got = back.into_retryable();
+    if got != want {
+        r.violation(&format!("C06:batch-error:map_retryable-through-unit:from={}:f={}", rm_name(&cur), F_KINDS[k1]), "BatchError<T> -> BatchError<()> -> BatchError<T> through map_retryable does not hold what the closures returned", case("through-unit", &got, &want));
+    }
+    r.violation_count() - before
+}
 
 fn main() {
     let args = Args::parse();
@@ -51,6 +179,8 @@ fn main() {
         None => r.inconclusive("retry budget could not be measured (no give-up within 64 attempts): early give-ups are not judged"),
     }
     let seed = args.seed;
+    // after the calibration (which must measure the budget with directly built errors)
+    set_express_through_combinators(args.get("express").map(|v| v != "0").unwrap_or(true));
     let run_case = |i: u64, r: &mut Report| {
         if lane_poisoned() {
             r.inconclusive("receiver threads did not exit after the sender was dropped (left behind); the remaining histories of this lane were skipped");
@@ -60,6 +190,15 @@ fn main() {
         let h = run_plan(&plan, cfg.delays);
         r.eval();
         observe_history(&h, r);
+        for b in &h.batches {
+            if b.via != 0 {
+                match b.out {
+                    Out::Retry => r.observe(&format!("on_batch-retry-expressed-through:{}:from={}", VIA_RETRY[b.via as usize].0, VIA_RETRY[b.via as usize].1), 1),
+                    Out::NoRetry => r.observe(&format!("on_batch-no-retry-expressed-through:{}:from={}", VIA_NO_RETRY[b.via as usize].0, VIA_NO_RETRY[b.via as usize].1), 1),
+                    _ => {}
+                }
+            }
+        }
         let seen = check_c06(&h, budget, r);
         if seen.truncation {
             r.observe("histories:exercised-truncation", 1);
@@ -108,6 +247,18 @@ fn main() {
 
     let n = args.get_u64("histories", args.n(3_000, 200_000));
     par_cases(&mut r, &args, n, run_case);
+    // the BatchError combinators on their own (model = Option<remainder>)
+    {
+        let n_c = args.get_u64("combinator-cases", if cfg!(miri) { 24 } else { args.n(4_000, 100_000) });
+        let mut bad = 0u64;
+        for i in 0..n_c {
+            bad += combinator_case(&mut r, seed, i);
+            if bad >= 8 {
+                break;
+            }
+        }
+        r.set("batch_error_combinator_cases", json!(n_c));
+    }
     // the truncation accounting under concurrent truncations: the rounds run one after the other, each owns the machine
     #[cfg(not(miri))]
     if args.get("stress").map(|v| v != "0").unwrap_or(true) {
